@@ -150,6 +150,7 @@ func (r *DecodeResult) close() {
 				r.trunc(n)
 			}
 		}
+		verifPoint("pool.put", r)
 		r.pool.Put(r)
 	}
 }
